@@ -8,7 +8,8 @@ EXTENDS Batch, Json, IOUtils
 Trace == ndJsonDeserialize(IOEnv.TRACE)
 C6 == {"c1", "c2", "c3", "c4", "c5", "c6"}
 Shard6 == [c \in C6 |-> IF c \in {"c4", "c5"} THEN "s2" ELSE "s1"]
-MaxSizeEnv == CHOOSE n \in 0..9 : ToString(n) = IOEnv.MAXSIZE
+\* "-1": the caller wrote "no limit" as the largest int (any number no batch reaches will do here)
+MaxSizeEnv == IF IOEnv.MAXSIZE = "-1" THEN 1000000 ELSE CHOOSE n \in 0..9 : ToString(n) = IOEnv.MAXSIZE
 
 VARIABLE l
 tvars == <<vars, l>>
